@@ -33,10 +33,20 @@ theorem reqTel_valid (g a : Nat) (hg : g < 128) (ha : a < 128) : (reqTel g a).Va
   · simp [fdlStatusRequestHeader, UInt8.lt_iff_toNat_lt]; omega
 
 /-- Telegrams the listener `me` merely overhears: a pass between other members that does not end at `me`,
-or a GAP request to an address that is not `me`. -/
+a GAP request to an address that is not `me`, or an application data telegram (anything but an FDL status
+request). -/
 def Foreign (M : List Nat) (me : Nat) (t : Telegram) : Prop :=
   (∃ a, a ∈ M ∧ a ≠ me ∧ cycSucc a M ≠ me ∧ t = tokTel M a) ∨
-  (∃ g a, g < 126 ∧ a < 126 ∧ g ≠ me ∧ t = reqTel g a)
+  (∃ g a, g < 126 ∧ a < 126 ∧ g ≠ me ∧ t = reqTel g a) ∨
+  (∃ h pdu, t = .data h pdu ∧ ∀ fcb, h.fc ≠ .request fcb .fdlStatus)
+
+/-- `handle_telegram` ignores every data telegram that is not an FDL status request. -/
+theorem handleTelegram_app_data (c : Ctx) (now : Int) (sr np : Option Nat) (coll : Nat) (h : Header) (pdu : Bytes)
+    (l : Bool) (hst : c.s.st = .activeIdle sr np coll) (hfc : ∀ fcb, h.fc ≠ .request fcb .fdlStatus) :
+    handleTelegram c now (.data h pdu) l = .ok c := by
+  unfold handleTelegram
+  rw [hst]
+  simp only
 
 /-- Witnessing any member's pass to its cyclic successor leaves the ring view as it is. -/
 theorem RingView.witness_member {M : List Nat} {x : Nat} {r : TokenRing} (v : RingView M x r) (h : Nat) (hh : h ∈ M) :
@@ -78,7 +88,7 @@ theorem idleF_foreign (M : List Nat) (me : Nat) (now l0 : Int) (c : Ctx) (t : Te
   unfold idleF
   simp only [upd]
   rw [markRx_at _ _ _ hl hle]
-  rcases hf with ⟨a, haM, hane, hsne, rfl⟩ | ⟨g, a, hg, ha, hgne, rfl⟩
+  rcases hf with ⟨a, haM, hane, hsne, rfl⟩ | ⟨g, a, hg, ha, hgne, rfl⟩ | ⟨h, pdu, rfl, hfc⟩
   · have ha125 := hv.ring.bound a haM
     have hs125 := hv.ring.bound _ (cycSucc_mem a M haM)
     unfold tokTel handleTelegram
@@ -95,6 +105,10 @@ theorem idleF_foreign (M : List Nat) (me : Nat) (now l0 : Int) (c : Ctx) (t : Te
       { c with s := { c.s with pendingBytes := 0, lastBusActivity := some now } } now none np coll
       (fdlStatusRequestHeader (UInt8.ofNat g) (UInt8.ofNat a)) [] .inactive isLast hst rfl
       (by show (UInt8.ofNat g).toNat ≠ _; rw [u8n g (by omega)]; simp only; rw [hme]; exact hgne)
+    rw [e]
+    exact ⟨_, rfl, ⟨rfl, rfl, rfl, rfl, rfl, rfl, ⟨np, coll, hst⟩, hv⟩, rfl, rfl⟩
+  · have e := handleTelegram_app_data
+      { c with s := { c.s with pendingBytes := 0, lastBusActivity := some now } } now none np coll h pdu isLast hst hfc
     rw [e]
     exact ⟨_, rfl, ⟨rfl, rfl, rfl, rfl, rfl, rfl, ⟨np, coll, hst⟩, hv⟩, rfl, rfl⟩
 
